@@ -409,3 +409,51 @@ func init() {
 			x.C.Count("fixed-width reads on parameter-derived byte slices", total)
 		}})
 }
+
+func init() {
+	register(&Rule{ID: "PARAM", Min: 1, Text: "no silently ignored input: in the packages the properties are anchored in (pkg/document and below, api/converter, server/packs, server/backend/database and its memory backend, server/clients, server/documents, server/backend/pubsub), every *named* parameter of a function with a body is used — a parameter that is deliberately ignored is spelled `_` in this code base (interface conformance), so a named parameter that no instruction reads means the function stopped honouring part of its contract (a stored lamport, a version vector, a flag)",
+		Run: func(x *Ctx) {
+			pkgs := []string{docPkg, changePkg, crdtPkg, timePkg, opsPkg, "pkg/document/json", "pkg/document/presence", "pkg/document/presence/inner", "pkg/document/yson",
+				convPkg, "server/packs", dbPkg, memPkg, "server/clients", "server/documents", psPkg, "server/revisions", "pkg/locker", "pkg/cmap", "server/backend/sync"}
+			n, bad := 0, 0
+			for _, fn := range x.P.FuncsIn(pkgs...) {
+				if fn.Parent() != nil {
+					continue
+				}
+				if o := fn.Origin(); o != nil && o != fn {
+					continue
+				}
+				for i, pm := range fn.Params {
+					if pm.Name() == "_" || pm.Name() == "" || (i == 0 && fn.Signature.Recv() != nil) {
+						continue
+					}
+					if pm.Name() == "ctx" {
+						continue // contexts are routinely accepted for future use
+					}
+					if prog.FnName(fn) == "(*server/backend/database/memory.DB).FindClientInfoByRefKey" && pm.Name() == "skipCache" {
+						continue // the memory backend has no cache to skip (the only unused named parameter on the pinned tree)
+					}
+					n++
+					used := false
+					if rs := pm.Referrers(); rs != nil {
+						for _, r := range *rs {
+							if _, dbg := r.(*ssa.DebugRef); !dbg {
+								used = true
+							}
+						}
+					}
+					if !used {
+						bad++
+						x.fail(fmt.Sprintf("func=%s param=%s", prog.FnName(fn), pm.Name()), x.fpos(fn), "the named parameter "+pm.Name()+" is never read: the function ignores part of its input")
+					}
+				}
+			}
+			x.C.Count("named parameters examined", n)
+			if bad == 0 {
+				x.hold("all named parameters used", "", fmt.Sprintf("%d named parameters in the anchored packages are all read", n))
+			}
+			if n < 300 {
+				x.C.Vacuous(x.id()+" parameters", n, 300)
+			}
+		}})
+}
